@@ -67,10 +67,13 @@ class Server:
         """send raw bytes on a new connection; -> (status or None if no response, headers, body)"""
         s = socket.socket(socket.AF_UNIX, socket.SOCK_STREAM)
         s.settimeout(timeout)
+        data = b""
         try:
             s.connect(self.sock)
-            s.sendall(raw)
-            data = b""
+            try:
+                s.sendall(raw)
+            except (BrokenPipeError, ConnectionResetError):
+                pass    # the server answered (e.g. 400) and closed before reading the whole body: its response is still readable
             t0 = time.time()
             while True:
                 try:
@@ -83,7 +86,7 @@ class Server:
                 if read_for is not None and time.time() - t0 > read_for:
                     break
         except (ConnectionError, OSError):
-            data = b"" if "data" not in dir() else data
+            pass
         finally:
             s.close()
         return parse_response(data)
@@ -444,7 +447,22 @@ def run_sequence(seed, n_req, fixed=True, services="api"):
         init = srv.dump()
         model_lines = ["NOW %x" % int(time.time() * 1000)] + [f"INIT {f}" for f in init]
         impl_lines, reqs = [], []
+        broken_bad = []
         for n in range(n_req):
+            if rnd.random() < 0.06:
+                # an upload that fails half-way (cut-off Content-Length body, garbage chunk size, chunk shorter than announced):
+                # whatever the answer, it is not a success and the store does not change
+                before = srv.dump()
+                kind = rnd.choice(["short", "chunksize", "chunkshort"])
+                raw = {"short": b"POST /upl HTTP/1.1\r\nHost: x\r\nContent-Length: 40\r\nConnection: close\r\n\r\nseven b",
+                       "chunksize": b"POST /upl HTTP/1.1\r\nHost: x\r\nTransfer-Encoding: chunked\r\nConnection: close\r\n\r\n5\r\nhello\r\nZZ\r\nxx\r\n0\r\n\r\n",
+                       "chunkshort": b"POST /upl HTTP/1.1\r\nHost: x\r\nTransfer-Encoding: chunked\r\nConnection: close\r\n\r\n5\r\nhello\r\n20\r\nxx"}[kind]
+                st_b, _, body_b = srv.request(raw, timeout=1.5, read_for=1.0)
+                time.sleep(0.1)
+                after = srv.dump() if srv.alive() else None
+                if after is None or after != before or (st_b is not None and 200 <= st_b < 300):
+                    broken_bad.append(dict(n=n, request=f"broken upload ({kind})", impl=f"status {st_b}; store {len(before or [])} -> {len(after) if after is not None else 'dead'} frames",
+                                           model="not a success, store unchanged", raw=raw[:120].decode("latin1")))
             req = g.gen()
             status, headers, body = srv.request(req["raw"])
             resp = canon_response(req, status, headers, body)
@@ -481,7 +499,7 @@ def run_sequence(seed, n_req, fixed=True, services="api"):
                            stdout=subprocess.PIPE, stderr=subprocess.PIPE, timeout=120)
         out = m.stdout.decode().splitlines()
         model = [(out[i + 1], out[i + 2]) for i in range(0, len(out) - 2, 3)] if m.returncode == 0 else []
-        mism, dropped, not_live, errs5 = [], [], [], []
+        mism, dropped, not_live, errs5 = list(broken_bad), [], [], []
         for n, ((resp, dump, live), req) in enumerate(zip(impl_lines, reqs)):
             if resp == "= dropped":
                 dropped.append(dict(n=n, request=" ".join(req["toks"])[:200], raw=req["raw"][:300].decode("latin1")))
